@@ -61,7 +61,8 @@ JudgeRound(e) ==
               (IF \A t \in SeqSet(msgs) : t \in SeqSet(hdls) THEN <<>> ELSE <<V("client-keeps-receiving-on-the-new-connection", RSig, d)>>) \o
               (IF ups[1] \in SeqSet(sends) THEN <<>> ELSE <<V("client-keeps-sending-on-the-new-connection", RSig, d)>>)
         wantKind == IF sm /\ smKnown /\ rd.resume = "accept" THEN "resume" ELSE "bind"
-        v6 == IF Len(ups) # 1 \/ wantUps # 1 \/ Len(kinds) # 1 \/ kinds[1] = wantKind THEN <<>> ELSE
+        \* after Stop and a second Run the statement does not say whether the old session is resumed or a new one bound
+        v6 == IF Len(ups) # 1 \/ wantUps # 1 \/ Len(kinds) # 1 \/ kinds[1] = wantKind \/ rd.drop = "restart" THEN <<>> ELSE
                 <<V("resumed-when-possible-freshly-bound-otherwise", wantKind, d)>>
     IN v1 \o v2 \o v3 \o v4 \o v5 \o v6
 
